@@ -1013,6 +1013,22 @@ class MkcalendarMethod(webdav.Method):
                 error=ET.Element("{DAV:}resource-must-be-null"),
                 description=f"Something already exists at {path!r}",
             )
+        sets = None
+        if base_content_type in ("text/xml", "application/xml"):
+            # reject a bad body before creating anything
+            et = await webdav._readXmlBody(
+                request,
+                "{urn:ietf:params:xml:ns:caldav}mkcalendar",
+                strict=app.strict,
+            )
+            sets = []
+            for el in et:
+                if el.tag != "{DAV:}set":
+                    webdav.nonfatal_bad_request(
+                        f"Unknown tag {el.tag} in mkcalendar", app.strict
+                    )
+                    continue
+                sets.append(el)
         try:
             resource = app.backend.create_collection(path)
         except FileNotFoundError:
@@ -1023,19 +1039,9 @@ class MkcalendarMethod(webdav.Method):
         )
         ET.SubElement(el, "{urn:ietf:params:xml:ns:caldav}calendar")
         await app.properties["{DAV:}resourcetype"].set_value(href, resource, el)
-        if base_content_type in ("text/xml", "application/xml"):
-            et = await webdav._readXmlBody(
-                request,
-                "{urn:ietf:params:xml:ns:caldav}mkcalendar",
-                strict=app.strict,
-            )
+        if sets is not None:
             propstat = []
-            for el in et:
-                if el.tag != "{DAV:}set":
-                    webdav.nonfatal_bad_request(
-                        f"Unknown tag {el.tag} in mkcalendar", app.strict
-                    )
-                    continue
+            for el in sets:
                 propstat.extend(
                     [
                         ps
